@@ -17,6 +17,69 @@ var StandaloneTimeoutS = 30
 var StandaloneDir = os.TempDir()
 var StandaloneStats struct{ Calls, Sat, Unsat, Unknown int }
 
+// CrossEvery > 0: every CrossEvery-th assertion query answered by the
+// incremental z3 is discharged again, as a standalone script, by cvc5 and
+// z3-new; a definite answer that differs is an engine error (never a pass).
+var CrossEvery = 0
+var CrossStats struct{ Checked, Agreed, Inconclusive int }
+var crossCounter = 0
+
+func (e *Engine) crossCheck(extra []*Term, primary string) {
+	if CrossEvery <= 0 || (primary != "sat" && primary != "unsat") {
+		return
+	}
+	crossCounter++
+	if crossCounter%CrossEvery != 0 {
+		return
+	}
+	var sb strings.Builder
+	for _, v := range e.vars {
+		sb.WriteString("(declare-const " + v.name + " " + sortOf(v.w) + ")\n")
+	}
+	done := map[int]bool{}
+	var def func(t *Term)
+	def = func(t *Term) {
+		if _, leaf := t.leafText(); leaf || done[t.id] {
+			return
+		}
+		for _, a := range t.args {
+			def(a)
+		}
+		done[t.id] = true
+		sb.WriteString(fmt.Sprintf("(define-fun t%d () %s %s)\n", t.id, sortOf(t.w), t.body()))
+	}
+	for _, t := range append(append([]*Term{}, e.pc...), extra...) {
+		def(t)
+		sb.WriteString("(assert " + t.shallowRef() + ")\n")
+	}
+	sb.WriteString("(check-sat)\n")
+	file := filepath.Join(StandaloneDir, fmt.Sprintf("gosym-cross-%d.smt2", os.Getpid()))
+	defer os.Remove(file)
+	if err := os.WriteFile(file, []byte(sb.String()), 0o644); err != nil {
+		return
+	}
+	CrossStats.Checked++
+	definite := 0
+	for _, s := range [][]string{{"cvc5", "--tlimit=20000"}, {"z3-new", "-T:20"}} {
+		out, _ := exec.Command(s[0], append(s[1:], file)...).Output()
+		first := strings.TrimSpace(strings.SplitN(string(out), "\n", 2)[0])
+		if first != "sat" && first != "unsat" {
+			continue
+		}
+		definite++
+		if first != primary {
+			keep := filepath.Join(StandaloneDir, fmt.Sprintf("solver-disagreement-%d.smt2", os.Getpid()))
+			os.WriteFile(keep, []byte(sb.String()), 0o644)
+			panic(engineError{fmt.Sprintf("solver disagreement: z3 says %s, %s says %s (script kept at %s)", primary, s[0], first, keep)})
+		}
+	}
+	if definite > 0 {
+		CrossStats.Agreed++
+	} else {
+		CrossStats.Inconclusive++
+	}
+}
+
 func (e *Engine) standalone(extra []*Term) (string, *model) {
 	StandaloneStats.Calls++
 	var sb strings.Builder
